@@ -4137,6 +4137,29 @@ def _kdf_inputs(ctx: Ctx, fi: FuncInfo, env: dict | None = None, via=(), depth: 
     return out
 
 
+def _dh_receivers(fi: FuncInfo, dh: list) -> list:
+    """(key expression, where it is evaluated) per Diffie-Hellman application: the receiver of each `k.diffie_hellman(..)` call; a call whose
+    receiver is the variable of a comprehension / for loop over a display of keys stands for one application per element."""
+    out = []
+    for c in dh:
+        r = strip_cast(c.func.value)
+        elts = None
+        if isinstance(r, ast.Name):
+            for a in ancestors(c):
+                gens = a.generators if isinstance(a, (ast.ListComp, ast.SetComp, ast.GeneratorExp, ast.DictComp)) else []
+                if isinstance(a, (ast.For, ast.AsyncFor)) and isinstance(a.target, ast.Name) and a.target.id == r.id:
+                    gens = [a]
+                for g in gens:
+                    if elts is None and isinstance(g.target, ast.Name) and g.target.id == r.id:
+                        e = _literal_elts(fi, g.iter)
+                        if e is not None:
+                            elts = [(el, g.iter) for el in e]
+                if elts is not None:
+                    break
+        out.extend(elts if elts is not None else [(r, c)])
+    return out
+
+
 def rule_whole_secret(ctx: Ctx) -> None:
     """
     A hop's layer can be removed only by the hop the originator chose because the session keys are derived from the WHOLE handshake
@@ -4182,7 +4205,8 @@ def rule_whole_secret(ctx: Ctx) -> None:
     # the responder's secret contains a Diffie-Hellman result computed with a key that was NOT generated in the call (its identity key)
     ss = repo.method("TunnelCrypto", "generate_diffie_shared_secret", CR)
     dh = ctx.anchor([c for c in calls(ss) if call_name(c) == "diffie_hellman" and isinstance(c.func, ast.Attribute)], "diffie_hellman in generate_diffie_shared_secret")
-    ctx.check(len(dh) >= 2 and any(not _fresh_key(ctx, ss, c.func.value, c) for c in dh), "whole-secret-keys", ss, dh[0],
+    recv = _dh_receivers(ss, dh)
+    ctx.check(len(recv) >= 2 and any(not _fresh_key(ctx, ss, r, at) for r, at in recv), "whole-secret-keys", ss, dh[0],
               "generate_diffie_shared_secret mixes in the long-term key of the hop",
               "generate_diffie_shared_secret computes the shared secret from keys generated in the call alone: the session keys are no longer "
               "bound to the identity of the hop the originator selected")
